@@ -151,11 +151,13 @@ def _accept_chunk(cases):
             try:
                 api.limit_order('BTC-USDT', q, price, 'buy', False)
             except (exceptions.InsufficientBalance, exceptions.InsufficientMargin) as e:
-                k = (kind, fee == 0)
+                # the float product q * price exceeds the capital (by an ulp: the recorded finding C17-K1) or not (anything else)
+                over = float(q) * float(price) > float(cap)
+                k = (kind, fee == 0, over)
                 if k in seen:
                     continue
                 seen.add(k)
-                out['viols'].append(Violation('sized-order-rejected', {'account': kind, 'fee_zero': fee == 0},
+                out['viols'].append(Violation('sized-order-rejected', {'account': kind, 'fee_zero': fee == 0, 'float_cost_exceeds_capital': over},
                                               {'fn': 'accept', 'args': [kind, cap, price, prec, fee]},
                                               'size_to_qty(%r, %r, precision=%d, fee_rate=%r) = %r is rejected by a fresh %s account holding %r: %s'
                                               % (cap, price, prec, fee, q, kind, cap, str(e)[:120])).to_json())
